@@ -558,6 +558,18 @@ func execChain(c cfg, ops []string, slot int) string {
 				return "bad-line"
 			}
 			st, err := r.in.chain.FetchSpendJournal(blk)
+			active := false
+			for _, id := range r.activeIDs() {
+				if id == atoi(op[1:]) {
+					active = true
+				}
+			}
+			if !active {
+				// the property fixes the undo data of ACTIVE blocks only; whether a record of an
+				// inactive block is kept is not compared
+				out = append(out, "inactive")
+				continue
+			}
 			if err != nil {
 				out = append(out, "err")
 				continue
